@@ -20,7 +20,7 @@ Line-protocol driver for the C06 model (fan-out queue with consumer groups).
   ackrewind <g> <n> <m> | rewindack <g> <m> <n>   (round 12, SetConsumedSeq against Ack on one group, the
       thread `wSet` of Model/FanOutMicro.lean: the one that holds the lock first is first — ack; setc / setc; ack)
 
-  rreset <g> <idx> | rstart <g> | rack <g> <idx> | rignore <g> <idx> | rconsume <g>   (round 12: the methods of
+  rreset <g> <idx> | rstart <g> | rack <g> <idx> | rignore <g> <idx> | rconsume <g> | rhandshake <g> <rAck>  (round 12: the methods of
       replica/replicator.go over the group — ResetReplicaIndex, the rewind of NewLocalReplicator, SetAckIndex,
       IgnoreMessage, Consume — as the operations Model/C06Glue.lean says they issue; the first four answer
       `ok ri=<ReplicaIndex> ai=<AckIndex> ap=<AppendIndex> | …`)
@@ -221,6 +221,10 @@ def pstepLine (v : Variant) (ps : PState) (ws : List String) : PState × String 
   | ["rignore", g, idx] =>
     match g.toNat?, idx.toInt? with
     | some g, some idx => replReply v ps g (Glue.ignoreMessage ps.s g idx)
+    | _, _ => (ps, "bad-op")
+  | ["rhandshake", g, r] =>
+    match g.toNat?, r.toInt? with
+    | some g, some r => replReply v ps g (Glue.handshakeOps ps.s g r)
     | _, _ => (ps, "bad-op")
   | ["rconsume", g] =>
     match g.toNat? with
